@@ -68,6 +68,29 @@ def judge(result, peer, closed_by_us_in_teardown=True, rc=None):
         rc_ok = bool(chk) and chk[0]["a"] == 1 and chk[0]["b"] > 0 and peer.closed
         cnt["rc-precondition-verified" if rc_ok else "rc-precondition-missed"] += 1
 
+    # ---- re-registration of the timeout functions (op M): checked by the harness on the spot
+    reregs = [e for e in evs if e["k"] == "rereg"]
+    for e in reregs:
+        mode = {0: "same-functions", 1: "other-functions", 2: "null-and-back"}.get(e["a"], str(e["a"]))
+        cnt["rr-ops:" + mode] += 1
+        cnt["rr-timeouts-moved"] += e["b"]
+        if e["b"]:
+            cnt["rr-ops-with-outstanding-timeouts:" + mode] += 1
+        m = e.get("m", [0, 0, 0])
+        if not e.get("rs"):
+            F.append(Finding("set-timeout-functions-failed", "dbus_connection_set_timeout_functions returned FALSE (%s)" % mode, -1))
+        if m[0]:
+            F.append(Finding("timeout-lost-on-reregistration", "dbus_connection_set_timeout_functions (%s, new data): %d of the %d DBusTimeouts "
+                             "that were registered with the application before the call are registered in no main-loop context "
+                             "afterwards (removed through the previous remove function, never handed to the new add function)"
+                             % (mode, m[0], e["b"]), -1))
+        if m[1]:
+            F.append(Finding("timeout-left-in-old-context-on-reregistration", "dbus_connection_set_timeout_functions (%s): %d DBusTimeout(s) "
+                             "are still registered in a context other than the new one afterwards" % (mode, m[1]), -1))
+        if m[2]:
+            F.append(Finding("timeout-added-twice-on-reregistration", "dbus_connection_set_timeout_functions (%s): %d DBusTimeout(s) were "
+                             "added more than once to the new context" % (mode, m[2]), -1))
+
     def arrived(idx, serial):
         return rc_ok and any(m_idx == idx for _, _, m_idx, _ in peer.by_serial.get(serial, []))
 
@@ -301,6 +324,16 @@ def judge(result, peer, closed_by_us_in_teardown=True, rc=None):
         sigs.append(("call", how, crel, tuple(sorted(observers)), "short" if is_finite(timeout_ms) else "inf", pk, peer_closed)
                     + (("rc",) if rc else ()))
         cnt["completed:" + how] += 1
+        if reregs:
+            # was this call outstanding (sent, nothing seen of a completion) when the main loop was changed?
+            seen_done = [e["s"] for e in es if e["k"] in ("notify", "steal") or (e["k"] in ("poll", "nset", "xend", "bend") and e["a"] == 1)]
+            first_done = min(seen_done) if seen_done else None
+            over = [r for r in reregs if r["s"] > sent["s"] and (first_done is None or r["s"] < first_done)]
+            if over and not cancelled:
+                cnt["rr-calls-outstanding-at-rereg"] += 1
+                cnt["rr-outstanding-then:" + how] += 1
+            elif reregs[0]["s"] < sent["s"]:
+                cnt["rr-calls-sent-after-rereg"] += 1
         if rc_ok:
             if arrived(idx, serial):
                 cnt["rc-calls-answered"] += 1
@@ -422,3 +455,16 @@ def judge_multi_blocker(result, peer, mb, writes, t_written_us):
 # reply: not with a local Disconnected / NoReply error (local-error-although-reply-arrived) and not never
 # (never-completed:reply-arrived-before-close).  Calls the peer did not answer stay with the ordinary rules.  No
 # waiting time is involved: the harness dispatches until the connection is quiescent.
+
+
+# ----------------------------------------------------------------------------- the main loop is changed under outstanding calls
+#
+# Op M calls dbus_connection_set_timeout_functions() again while calls with finite timeouts are outstanding: same
+# function pointers with other data (the connection moves to another main-loop context), other function pointers, or
+# NULL and back.  "Sets the mainloop functions ... whenever there's a timeout to be added the add function is called":
+# libdbus hands the timeouts it owns to the new add function and takes them from the previous remove function.  The
+# harness keeps one timer table with a context id per entry and runs (fires) only the context libdbus was last given.
+# The C17 rules stay what they are - a call whose reply never comes completes with the local NoReply once its timeout
+# has elapsed (bounded progress exactly as for every other short timeout: the drain loop, quiescent == 2 when libdbus
+# has no short timeout registered in the running context any more) - plus the invariant the harness checks on the
+# spot: each timeout registered before the call is registered exactly once, in the new context, after it.
